@@ -6,7 +6,7 @@ namespace Driver.C20
 open Proto Storage.Upload
 
 /- case <id> kind=up day=YYYYMMDD user=<hex> store=local|mem reqs=<req>;<req>;…
-     req   = <parts>|<endErr>|<fault>|<cut>|<day of the request>
+     req   = <parts>|<endErr>|<fault>|<cut>|<refused before processing: - ctype boundary method auth>|<day of the request>
      parts = - | part+part+…    part = X:<name hex>[:<filename hex>] | F:<fname hex>:<content hex>:<cut>:<chunks a.b.c or ->
      fault = - | <k>.<o|s>.<d|l>
    case <id> kind=ids day=… ops=<m><c|a>,…
@@ -28,11 +28,11 @@ def parseFault (s : String) : Option Fault :=
   | [k, m, l] => k.toNat?.map fun k => { k := k, sticky := m == "s", leaves := l == "l" }
   | _ => none
 
-def parseReq (s : String) : Option (Req × Nat × Nat) :=
+def parseReq (s : String) : Option (Req × Nat × Nat × String) :=
   match s.splitOn "|" with
-  | [ps, e, f, c, d] =>
+  | [ps, e, f, c, pre, d] =>
     let parts := if ps == "-" then [] else (ps.splitOn "+").filterMap parsePart
-    some ({ parts := parts, endErr := e == "1", fault := parseFault f }, c.toNat?.getD 0, d.toNat?.getD 0)
+    some ({ parts := parts, endErr := e == "1", fault := parseFault f }, c.toNat?.getD 0, d.toNat?.getD 0, pre)
   | _ => none
 
 def str (b : Bytes) : String := String.ofList (b.map fun c => Char.ofNat c.toNat)
@@ -87,8 +87,16 @@ def handleUp (l : Line) : IO Unit := do
   let mut step := 0
   -- spec-level bookkeeping: days of the ids handed out so far
   let mut days : List Nat := []
-  for (req, cutFlag, day) in reqs do
+  for (req, cutFlag, day, pre) in reqs do
     let env : Env := { day := day, user := user, time := Bytes.ofString "2006-01-02T15:04:05Z" }
+    if pre != "-" then
+      -- App.upload refuses the request before processUpload (Auth error, method, MultipartReader error):
+      -- http.Error and return; nothing is touched
+      let status := if pre == "method" then "405" else "500"
+      IO.println s!"obs {l.id} step={step} status={status} err=refused id=- fids=- trace=- nup={s.db.uploads.length} own=0 search={showSearch s.db} list={showList s.db} files={showFiles s.fs withData}"
+      IO.println s!"spec {l.id} step={step} ok=0 vis=0,0,0 lab=0,0,0 listed=0 inprog=0 earlier=1 idsok=1 stored=-"
+      step := step + 1
+      continue
     let o := processUpload env req s
     s := o.sys
     let (status, err, fids) := match o.resp with
